@@ -205,6 +205,19 @@ impl RuntimeState {
         self.variables.remove(ident);
     }
 
+    /// All variables, sorted by name (verification instrumentation only).
+    #[cfg(vrl_verif)]
+    #[must_use]
+    pub fn verif_snapshot(&self) -> Vec<(String, Value)> {
+        let mut all: Vec<(String, Value)> = self
+            .variables
+            .iter()
+            .map(|(ident, value)| (ident.to_string(), value.clone()))
+            .collect();
+        all.sort_by(|a, b| a.0.cmp(&b.0));
+        all
+    }
+
     pub(crate) fn swap_variable(&mut self, ident: Ident, value: Value) -> Option<Value> {
         match self.variables.entry(ident) {
             Entry::Occupied(mut v) => Some(std::mem::replace(v.get_mut(), value)),
